@@ -43,6 +43,26 @@ NEEDS = {
  "C19-m2": ("absolute step floored at 1e-4", "max_step_size below 1e-4"),
  "C20-m1": ("convergence test rewritten with the comparison reversed (equality counts as converged)", "a boundary threshold, e.g. convergence = 0 at zero temperature"),
  "C20-m2": ("loop count rounded up (ceiling division)", "steps not a multiple of inner_steps"),
+ "C01-m3": ("the periodic-image loop of check_intersection compares a site's copies only with images of the SAME site", "two or more occupied sites (library / JSON states) overlapping through a cell face"),
+ "C01-m4": ("enclosing_radius taken from the atom whose CENTRE is furthest from the origin", "a trimer whose large central particle reaches furthest (e.g. --radius 0.4), a group with a rotation, contact through a cell face"),
+ "C03-m3": ("LJ2::energy returns 0 when r^2 == 0 (\"a particle does not interact with itself\")", "two molecule images exactly coincident: a site clamped onto a special position"),
+ "C03-m4": ("Transform2::periodic wraps by a single +- period step", "site coordinates more than one cell away from the canonical cell (JSON states), or operations with translation > 1"),
+ "C06-m3": ("a rejected move is undone with set_value(previous), which clamps", "a parameter that starts OUTSIDE its declared interval (state loaded from a file) and a rejected move on it"),
+ "C06-m4": ("StandardBasis::set_value returns early, without refreshing `old`, when the clamped value equals the current one", "accepted move off a limit, accepted move back onto it, then a clamped no-op proposal that is rejected"),
+ "C08-m3": ("a proposal without a score is flattened to -inf and sent through the acceptance arithmetic", "a temperature that is +inf, NaN or negative: (-inf - old)/kt is NaN or +inf and f64::min(exp(..), 1) = 1"),
+ "C08-m4": ("the cell length's upper bound becomes max(a(), b())", "a valid state with side ratio above one (loaded from a file) optimised at kt > 0"),
+ "C09-m3": ("the consecutive-converged-loops counter moved to an atomic field of MCOptimiser, not reset at call start", "one built optimiser reused (or shared by replicas) with convergence = Some(_) and a previous call that ended on the step budget mid-streak"),
+ "C09-m4": ("state == and partial_cmp treat scores within f64::EPSILON as equal", "replicas whose scores differ by a few ulps: the order is no longer transitive, max depends on the reduction tree"),
+ "C10-m3": ("PotentialState::partial_cmp compares score.to_bits() as i64", "all contending Lennard-Jones replicas with NEGATIVE scores (net repulsive): the order among them is inverted"),
+ "C10-m4": ("stages 2 and 3 of a replica seeded with start_configs + index and 2*start_configs + index", "comparing runs with different --replications, or the binary against the library replay"),
+ "C11-m3": ("SharedValue serialised through serialize_f32 whenever the value survives an f32 cast", "a parameter value that is exactly representable in single precision (set through the library / read from a file)"),
+ "C11-m4": ("Transform2::as_svg reuses the (0,0) entry for the (1,1) entry of the matrix", "groups with a mirror or glide (d = -a): p1m1, p1g1, p2mm, p2mg, p2gg"),
+ "C12-m3": ("Line2::intersects computes its numerators from the implicit line equation (products of coordinates)", "shapes ~1e5-1e6 away from the origin (library callers): rounding error grows with the square of the distance"),
+ "C12-m4": ("MolecularShape2::intersects gains a separating-axis early exit along the axis between the two first atoms", "exactly coincident first atoms: normalize(0) = NaN, the NaN-ignoring folds make the pre-check say 'separated'"),
+ "C15-m3": ("the wrap replaced by v - period * round((v - centre)/period)", "an image coordinate of exactly -1/2 (round() rounds halves away from zero): the basis produces it when it clamps"),
+ "C15-m4": ("positions() folds with (v + 0.5) as i64 (truncation toward zero) instead of Transform2::periodic", "site coordinates shifted by a NEGATIVE whole lattice vector (library / JSON states)"),
+ "C20-m3": ("with a convergence threshold, a slow loop skips the step-size adaptation (`continue`)", "a threshold, a slow loop with every proposal rejected, and at least one more loop"),
+ "C20-m4": ("the loop count computed once in build() in floating point: steps as f64 / inner_steps as f64", "inner_steps = 0 with steps > 0: the quotient is +inf, cast to u64::MAX loops - the optimiser never returns"),
 }
 rows = []
 for d in sorted(glob.glob(os.path.join(ROOT, "seeded", "*"))):
